@@ -113,8 +113,10 @@ package jsonpath
 
 // extVal: a value whose backing array (if it is a list) is outside library ownership.  Read-only
 // arrays and all maps contain only such values (closure of the document and of user data).
-//@ spec extVal(v any) bool = isType(v, []interface{}) ==> RO(asType(v, []interface{}))
-//@ axiom extClosureList: forall a, i {A_Val[a][i]} :: RO(a) ==> extVal(A_Val[a][i])
+// (the "no value" marker has a private type, so no user value can be equal to it)
+//@ spec docArr(s []interface{}) bool = RO(s) && arr(s) != arr(emptyList) && arr(s) != arr(fullList)
+//@ spec extVal(v any) bool = v != emptyEntity && (isType(v, []interface{}) ==> docArr(asType(v, []interface{})))
+//@ axiom extClosureList: forall a, i {A_Val[a][i]} :: RO(a) && a != arr(emptyList) && a != arr(fullList) ==> extVal(A_Val[a][i])
 //@ axiom extClosureMap: forall m, k Str {M_val[m][k]} :: extVal(M_val[m][k])
 
 //@ smt (declare-fun WFnode (Val) Bool)
@@ -285,7 +287,7 @@ package jsonpath
 //@ func (*syntaxBasicNode).retrieveListNext
 //@   props C03 C04 C05 C06 C20 C12 C13 C16
 //@   decreases 3*hgt(i)
-//@   requires WFbasic(i) && 0 <= index && index < len(currentList) && RO(currentList)
+//@   requires WFbasic(i) && 0 <= index && index < len(currentList) && docArr(currentList)
 //@   include retrieveFrame
 //@   ensures single: singleNext(i) ==> len(container.result) <= old(len(container.result)) + 1
 //@   ensures leafplain: i.next == nil && !i.accessorMode ==> ret == nil && len(container.result) == old(len(container.result)) + 1 && elemAt(container.result, old(len(container.result))) == currentList[index]
@@ -385,7 +387,7 @@ package jsonpath
 
 //@ func (*syntaxChildWildcardIdentifier).retrieveList
 //@   props C03 C04 C05 C06 C07 C20
-//@   requires i != nil && WFbasic(i.syntaxBasicNode) && errRT(i.syntaxBasicNode) && RO(srcList)
+//@   requires i != nil && WFbasic(i.syntaxBasicNode) && errRT(i.syntaxBasicNode) && docArr(srcList)
 //@   include retrieveFrame
 //@   decreases 3*hgt(i.syntaxBasicNode) + 1
 //@   loop 1 invariant bufInv(container) && errInv(deepestTextLen, deepestError)
@@ -698,7 +700,7 @@ package jsonpath
 
 //@ func (*syntaxFilterQualifier).retrieveList
 //@   props C03 C04 C05 C06 C07 C20
-//@   requires WFfilterDef(f) && RO(srcList) && wf(srcList)
+//@   requires WFfilterDef(f) && docArr(srcList) && wf(srcList)
 //@   include retrieveFrame
 //@   decreases 3*height(f) + 1
 //@   loop 1 invariant bufInv(container) && errInv(deepestTextLen, deepestError)
